@@ -127,6 +127,8 @@ class SdoServer(SdoBase):
         if data[0] & 0x1 == INITIATE_BLOCK_TRANSFER:
             # Refuse the object the client asked for, not the previous transfer's
             _, self._index, self._subindex = SDO_STRUCT.unpack_from(data)
+            # A new initiate ends any segmented download still in progress
+            self._downloading = False
         self.abort(0x05040001)
 
     def init_download(self, request):
